@@ -156,6 +156,8 @@ class Gen:
         """UTF-8 string as bytes, lengths biased to 0 and around multiples of 7 bytes"""
         r = self.r
         n = r.choice([0, 0, 1, 1, 2, 3, 5, 6, 7, 8, 13, 14, 15, r.range(0, maxlen)])
+        if r.chance(1, 25):
+            n = r.range(16, 48)       # long enough for the u64 shift register of the chunk iterators to wrap
         s = ""
         while len(s.encode()) < n:
             s += r.choice(UCHARS) if r.chance(2, 3) else chr(r.range(0x20, 0x7e))
@@ -181,6 +183,8 @@ class Gen:
     def bstr(self, maxlen=10):
         r = self.r
         n = r.choice([0, 0, 1, 1, 2, 3, 4, r.range(0, maxlen)])
+        if r.chance(1, 25):
+            n = r.range(16, 48)
         return bytes(r.choice(BBYTES) if r.chance(2, 3) else r.below(256) for _ in range(n))
 
     def bstr_near(self, b):
@@ -536,7 +540,10 @@ def run(chk):
                 b2 = b
                 mal_stats["valid"] += 1
             cases.append(("1D %s %s %s" % (via, tup(sh), hx(b2) if b2 else "-"), {"kind": "1D", "tag": "g1d", "bytes": b2}))
-            if rng.chance(1, 3):
+            if mode >= 9:
+                # a valid key: the iterator must cut it into 2 pieces per field and peek_next must report the first field
+                cases.append(("1I %s" % (hx(b2) if b2 else "-"), {"kind": "1I", "tag": "g1iv", "npieces": 2 * len(A), "peek": shape1(A[0]) if A else "none"}))
+            elif rng.chance(1, 3):
                 cases.append(("1I %s" % (hx(b2) if b2 else "-"), {"kind": "1I", "tag": "g1i"}))
 
     lines = [c[0] for c in cases]
@@ -646,8 +653,14 @@ def run(chk):
             if "PANIC" in io:
                 rec["what"] = "decoder panicked on these bytes"
                 prop_bad.append(rec)
+            elif kind == "1I" and "peek" in meta and (io.split()[1] != meta["peek"] or len([x for x in io.split()[0].split(",") if x != "-"]) != meta["npieces"]):
+                rec["what"] = "iterator / peek_next on a valid key: expected %d pieces and tag %s" % (meta["npieces"], meta["peek"])
+                prop_bad.append(rec)
             elif io != mo:
                 corr_bad.append(rec)
+            if "utf8_ok" in meta and io.startswith("ok:") != meta["utf8_ok"]:
+                rec["what"] = "String::from_utf8 and Python's UTF-8 decoder disagree on this byte sequence"
+                spec_bad.append(rec)
             if kind == "2D" and io.startswith("ok:"):
                 hb = ln.split()[2]
                 reenc.append((b"" if hb == "-" else bytes.fromhex(hb), io[3:], ln))
@@ -732,6 +745,42 @@ def exhaustive_small(stats):
             cases.append((line_of_pair("2P", [("i", 64, a)], [("i", 64, b)], [], []), {"kind": "2P", "tag": "ex2i"}))
             for d in "FR":
                 cases.append((line_of_pair("1P", [(5, d, ("i64", a))], [(5, d, ("i64", b))], [], []), {"kind": "1P", "tag": "ex1i"}))
+    # all pairs of strings of length <= 2 (and a sample of length 3) over a boundary alphabet
+    import itertools
+    alpha1 = ["\0", "\x01", "\x03", "a", "\x7f", "\u0080"]
+    strs = [""] + ["".join(t) for n in (1, 2) for t in itertools.product(alpha1, repeat=n)]
+    strs += ["".join(t) for t in itertools.product(["\0", "\x01", "a"], repeat=3)]
+    strs = [x.encode() for x in strs]
+    for a in strs:
+        for b in strs:
+            for d in "FR":
+                cases.append((line_of_pair("1P", [(3, d, ("s", a))], [(3, d, ("s", b))], [], []), {"kind": "1P", "tag": "ex1s2"}))
+    alpha2 = [0, 1, 0xfe, 0xff]
+    bs = [b""] + [bytes(t) for n in (1, 2, 3) for t in itertools.product(alpha2, repeat=n)]
+    for a in bs:
+        for b in bs:
+            cases.append((line_of_pair("2P", [("b", a)], [("b", b)], [], []), {"kind": "2P", "tag": "ex2b3"}))
+    # UTF-8 acceptance: the model's utf8_valid against String::from_utf8 (and Python's decoder as the
+    # third opinion, checked in run()): every 1- and 2-byte sequence without 0x00, and 3-/4-byte
+    # sequences around every boundary of the well-formedness table
+    seqs = [bytes([a]) for a in range(1, 256)] + [bytes([a, b]) for a in range(1, 256) for b in range(1, 256)]
+    edge = [0x7f, 0x80, 0x8f, 0x90, 0x9f, 0xa0, 0xbf, 0xc0]
+    for a in [0xdf, 0xe0, 0xe1, 0xec, 0xed, 0xee, 0xef, 0xf0]:
+        for b in edge:
+            for c in edge:
+                seqs.append(bytes([a, b, c]))
+    for a in [0xef, 0xf0, 0xf1, 0xf3, 0xf4, 0xf5, 0xf8, 0xff]:
+        for b in edge:
+            for c in [0x7f, 0x80, 0xbf, 0xc0]:
+                for d in [0x7f, 0x80, 0xbf, 0xc0]:
+                    seqs.append(bytes([a, b, c, d]))
+    for q in seqs:
+        try:
+            q.decode("utf-8")
+            ok = True
+        except UnicodeDecodeError:
+            ok = False
+        cases.append(("2D s %s0000" % hx(q), {"kind": "2D", "tag": "utf8", "utf8_ok": ok}))
     stats["exhaustive_small_cases"] = len(cases)
     return cases
 
